@@ -998,15 +998,17 @@ var orderTargets = []orderTarget{
 	{"internal/transfer", "receiveFileChunksWindowed", "writeAtWithTimeout", "MarkComplete", "legacy_write_before_mark"},
 	{"internal/app", "runICEQUICTransfer", "authenticateTransport", "SendManifestMultiStream", "sender_auth_before_send"},
 	{"internal/app", "runICEQUICTransfer", "authenticateTransport", "NewMultiConn", "sender_auth_before_multiconn"},
-	{"internal/app", "runTransfer", "authenticateTransport", "RecvManifestMultiStream", "receiver_auth_before_recv"},
-	{"internal/app", "runTransfer", "authenticateTransport", "NewMultiConn", "receiver_auth_before_multiconn"},
+	// the receiver uses a connection either after authenticating it itself (its own outgoing dial) or because it came
+	// out of acceptAuthenticated (flag `authenticated`): "|flag" lets paths through the true edge of `if flag`
+	{"internal/app", "runTransfer", "authenticateTransport#ok|authenticated", "NewMultiConn", "receiver_auth_before_multiconn"},
 	// "#ok": the second site must lie on the err == nil branch of the test of the first call's result
 	{"internal/app", "runICEQUICTransfer", "authenticateTransport#ok", "SendManifestMultiStream", "sender_auth_ok_before_send"},
 	{"internal/app", "runICEQUICTransfer", "authenticateTransport#ok", "dialExtraConns", "sender_auth_ok_before_extra"},
-	{"internal/app", "runTransfer", "authenticateTransport#ok", "RecvManifestMultiStream", "receiver_auth_ok_before_recv"},
-	{"internal/app", "runTransfer", "authenticateTransport#ok", "acceptExtraConns", "receiver_auth_ok_before_extra"},
+	{"internal/app", "runTransfer", "authenticateTransport#ok|authenticated", "RecvManifestMultiStream", "receiver_auth_ok_before_recv"},
+	{"internal/app", "runTransfer", "authenticateTransport#ok|authenticated", "acceptExtraConns", "receiver_auth_ok_before_extra"},
 	{"internal/app", "dialExtraConns", "authenticateTransport#ok", "append", "sender_extra_auth_ok_before_keep"},
-	{"internal/app", "acceptExtraConns", "authenticateTransport#ok", "append", "receiver_extra_auth_ok_before_keep"},
+	// acceptAuthenticated hands a connection on (channel send) only on the err == nil branch of its authentication
+	{"internal/app", "acceptAuthenticated", "authenticateTransport#ok", "@send", "receiver_accept_auth_ok_before_deliver"},
 }
 
 // okBranch: the block entered when the error returned by the call at x is nil (nil if the result is not tested
@@ -1123,10 +1125,24 @@ func neverReturns(fn *ssa.Function, depth int) bool {
 
 // onlyViaOK: every path from the function entry to site y takes the err == nil edge out of x's block
 // (paths ending in a no-return call are not paths to y).
-func onlyViaOK(x, y callSite) bool {
+func onlyViaOK(x, y callSite, flag string) bool {
 	ok := okBranch(x)
 	if ok == nil || x.fn != y.fn {
 		return false
+	}
+	// flagTrue: b ends in `if <flag>` (the SSA value of the local variable named flag): its true successor
+	flagTrue := func(b *ssa.BasicBlock) *ssa.BasicBlock {
+		if flag == "" || len(b.Instrs) == 0 {
+			return nil
+		}
+		iff, isIf := b.Instrs[len(b.Instrs)-1].(*ssa.If)
+		if !isIf {
+			return nil
+		}
+		if ph, isPhi := iff.Cond.(*ssa.Phi); isPhi && ph.Comment == flag {
+			return b.Succs[0]
+		}
+		return nil
 	}
 	seen := map[*ssa.BasicBlock]bool{}
 	work := []*ssa.BasicBlock{x.fn.Blocks[0]}
@@ -1149,6 +1165,9 @@ func onlyViaOK(x, y callSite) bool {
 		for _, sc := range b.Succs {
 			if b == x.blk && sc == ok {
 				continue // the ok edge is the one we leave out
+			}
+			if sc == flagTrue(b) {
+				continue // so is the edge taken when the connection is already authenticated
 			}
 			work = append(work, sc)
 		}
@@ -1323,6 +1342,16 @@ func findCalls(fns []*ssa.Function, name string) []callSite {
 				if cc != nil && calleeName(cc) == name {
 					res = append(res, callSite{f, b, i})
 				}
+				if _, isSend := ins.(*ssa.Send); isSend && name == "@send" {
+					res = append(res, callSite{f, b, i})
+				}
+				if sel, isSel := ins.(*ssa.Select); isSel && name == "@send" {
+					for _, st := range sel.States {
+						if st.Dir == types.SendOnly {
+							res = append(res, callSite{f, b, i})
+						}
+					}
+				}
 			}
 		}
 	}
@@ -1347,7 +1376,11 @@ func (w *world) genOrder() string {
 		fns := allFuncsNamed(sp, w.prog, t.fn)
 		snd := strings.SplitN(t.snd, "#", 2)[0]
 		first := strings.SplitN(t.first, "#", 2)[0]
-		needOK := strings.HasSuffix(t.first, "#ok")
+		flag := ""
+		if i := strings.Index(t.first, "|"); i >= 0 {
+			flag = t.first[i+1:]
+		}
+		needOK := strings.Contains(t.first, "#ok")
 		as := findCalls(fns, first)
 		bs := findCalls(fns, snd)
 		if snd == "@sidecarMark" {
@@ -1371,7 +1404,7 @@ func (w *world) genOrder() string {
 			total++
 			for _, x := range as {
 				if needOK {
-					if onlyViaOK(x, y) {
+					if onlyViaOK(x, y, flag) {
 						dom++
 						break
 					}
@@ -1388,6 +1421,67 @@ func (w *world) genOrder() string {
 		}
 		fmt.Fprintf(&b, "/-- in %s.%s: every call of %s is dominated by a call of %s (sites found: %d first, %d second) -/\n", t.pkg, t.fn, snd, t.first, len(as), total)
 		fmt.Fprintf(&b, "def %s : Nat × Nat × Nat := (%d, %d, %d)\n\n", t.leanName, len(as), total, dom)
+	}
+	// AST fact: in the receiver's runTransfer the flag `authenticated` is set only in select cases that received the
+	// connection from a channel returned by acceptAuthenticated
+	{
+		p := w.pkgs["internal/app"]
+		chans := map[string]bool{}
+		sets, good := 0, 0
+		for _, f := range p.Syntax {
+			for _, d := range f.Decls {
+				fd, ok := d.(*ast.FuncDecl)
+				if !ok || fd.Name.Name != "runTransfer" || fd.Body == nil || fd.Recv == nil || !strings.Contains(w.exprText(fd.Recv.List[0].Type), "snapshotReceiver") {
+					continue
+				}
+				ast.Inspect(fd.Body, func(n ast.Node) bool {
+					if as, ok := n.(*ast.AssignStmt); ok && len(as.Lhs) == 1 && len(as.Rhs) == 1 {
+						if c, ok := as.Rhs[0].(*ast.CallExpr); ok {
+							if sel, ok := c.Fun.(*ast.SelectorExpr); ok && sel.Sel.Name == "acceptAuthenticated" {
+								chans[w.exprText(as.Lhs[0])] = true
+							}
+						}
+					}
+					return true
+				})
+				var stack []ast.Node
+				ast.Inspect(fd.Body, func(n ast.Node) bool {
+					if n == nil {
+						stack = stack[:len(stack)-1]
+						return true
+					}
+					stack = append(stack, n)
+					as, ok := n.(*ast.AssignStmt)
+					if !ok || len(as.Lhs) != 1 || w.exprText(as.Lhs[0]) != "authenticated" || as.Tok != token.ASSIGN {
+						return true
+					}
+					sets++
+					if w.exprText(as.Rhs[0]) != "true" {
+						return true
+					}
+					for i := len(stack) - 1; i >= 0; i-- {
+						cc, ok := stack[i].(*ast.CommClause)
+						if !ok {
+							continue
+						}
+						var rx ast.Expr
+						switch c := cc.Comm.(type) {
+						case *ast.AssignStmt:
+							rx = c.Rhs[0]
+						case *ast.ExprStmt:
+							rx = c.X
+						}
+						if u, ok := rx.(*ast.UnaryExpr); ok && u.Op == token.ARROW && chans[w.exprText(u.X)] {
+							good++
+						}
+						break
+					}
+					return true
+				})
+			}
+		}
+		fmt.Fprintf(&b, "/-- in the receiver's runTransfer: (channels obtained from acceptAuthenticated, assignments to `authenticated`, of them `= true` inside a select case receiving from such a channel) -/\n")
+		fmt.Fprintf(&b, "def receiver_flag_only_from_authenticated_accept : Nat × Nat × Nat := (%d, %d, %d)\n\n", len(chans), sets, good)
 	}
 	// make() sites in decoders: size expression text and whether it is a constant
 	b.WriteString("/-- make([]T, n) sites in the control decoders: (function, size expression, element size, constant?) -/\n")
